@@ -393,7 +393,8 @@ where
         }
 
         if COMPRESSED
-            && (symbol.as_() >= self.codes_encode.as_ref().unwrap().len()
+            && (symbol.to_usize().is_none() // wider than the code table can index: not in the alphabet
+                || symbol.as_() >= self.codes_encode.as_ref().unwrap().len()
                 || self.codes_encode.as_ref().unwrap()[symbol.as_() as usize].len == 0)
         {
             return None;
@@ -459,7 +460,8 @@ where
         }
 
         if COMPRESSED
-            && (symbol.as_() >= self.codes_encode.as_ref().unwrap().len()
+            && (symbol.to_usize().is_none() // wider than the code table can index: not in the alphabet
+                || symbol.as_() >= self.codes_encode.as_ref().unwrap().len()
                 || self.codes_encode.as_ref().unwrap()[symbol.as_() as usize].len == 0)
         {
             return None;
